@@ -64,11 +64,13 @@ type RunOutput struct {
 	Probes     map[string]int
 	Pairs      map[uint64]struct{}
 	Capped     bool
+	Livelock   string
 	Foreign    []string
 	Nontrivial bool
 	SimTime    time.Duration
 	Yields     int64
 	Steps      int
+	Tasks      int
 }
 
 // X is the execution context handed to an engine inside the bubble.
@@ -230,11 +232,27 @@ func RunOne(t *testing.T, p *Prop, in RunInput) (out RunOutput) {
 			out.Probes = s.Probes
 			out.Pairs = s.Pairs
 			out.Capped = s.Capped
+			if s.Capped && len(s.Foreign) == 0 {
+				// bounded liveness: a finite scripted workload did not come to rest within the step budget (200 000
+				// hand-offs or 2 000 000 executed statements; the largest run on the unchanged tree needs about 10^4).
+				// The only verdict of such a run is that fact: every other oracle presupposes a run that ended.
+				out.Livelock = s.Livelock
+				sig := "scheduling-steps"
+				if s.Livelock != "" {
+					sig = "busy in " + s.Livelock
+				}
+				out.Capped = false
+				out.Violations = nil
+				x.seen = map[string]bool{}
+				capSteps, capYields := s.Caps()
+				x.Reportf(p.ID+".no-quiescence", sig, "the run did not come to rest: %d hand-offs, %d statements executed (caps %d / %d; the largest run on the unchanged tree needs about 10^4 statements)", s.Steps, s.Yields(), capSteps, capYields)
+			}
 			out.Foreign = s.Foreign
 			out.Preempt = s.PreemptRec
 			out.SimTime = s.Now()
 			out.Yields = s.Yields()
 			out.Steps = s.Steps
+			out.Tasks = s.NumTasks()
 			nf := 0
 			for _, n := range s.Faults {
 				nf += n
@@ -287,8 +305,11 @@ type MinStats struct {
 // while the same rule+sig keeps firing. The input must be in replay form.
 func Minimise(t *testing.T, p *Prop, in RunInput, key string, budget int) (RunInput, MinStats) {
 	st := MinStats{GenBefore: len(in.GenTape), RunBefore: len(in.RunTape), PreBefore: len(in.Preempt)}
+	// wall-clock bound: on a tree where every candidate run spins to a cap, minimisation must not starve the
+	// worker (the result is then less minimal, never wrong: every accepted candidate reproduced the violation)
+	t0 := time.Now()
 	try := func(c RunInput) bool {
-		if st.Candidates >= budget {
+		if st.Candidates >= budget || time.Since(t0) > 40*time.Second {
 			return false
 		}
 		st.Candidates++
